@@ -18,6 +18,8 @@
                                 the imported models of C12 / C11 run on the file's bytes (with_models),
                                 the other decoders as in DEC ...; result as for rd
    flc STYLE xFILE (DEC ...) (K ...) [CHUNK]    the same with faults; styles at ge trunc stream seof
+   bulk WANT (ERR ...) ...      Parser.Read of WANT bytes whose successive ReadBytes calls fail (1) or not (0)
+        -> (COUNT ERR)
    fl STYLE FONT (K ...) [CHUNK] fault at K, STYLE in
         at       ReaderAt failing on every access touching offset K
         ge       ReaderAt failing on every access touching an offset >= K
@@ -128,6 +130,9 @@ let () = main_loop (fun c ->
   | A "rd" :: font :: _ ->
     let (pre, len, d) = font_of font in
     rd_result d (sparse_at pre (n_of_int len))
+  | A "bulk" :: want :: L outs :: _ ->
+    let r = m_bulk_read (n_of_int (int_of_nat parser_bufferSize)) rb_recorded (List.map sx_bool outs) (sx_n want) in
+    if r.br_fuel then L [an r.br_total; ab r.br_err] else A "fuel"
   | A "rdc" :: file :: L decs :: _ ->
     rd_result (with_models (decoders_of decs)) (plain_at (sx_bytes file))
   | A "fl" :: style :: font :: ks :: rest ->
